@@ -54,10 +54,6 @@ fn check_structure(content: &Content, text: &str, report: &mut Report, label: &s
         match tok.0 {
             Tok::Combo(a, b) => {
                 let p = crate::conv::pid(a, b);
-                if a > b {
-                    report.violate(sig("combo-order"), format!("single combo {} is written with its cards reversed; text '{}'", pair_text(p), clip(text)), case());
-                    return (want_runs.len() as u64, single_tokens);
-                }
                 if let Some(prev) = singles.insert(p, tok.1) {
                     if prev.to_bits() != tok.1.to_bits() {
                         report.violate(sig("combo-twice"), format!("single combo {} appears with two weights; text '{}'", pair_text(p), clip(text)), case());
